@@ -2,6 +2,7 @@
 # Runs the thorough tier of every claimed check (sequentially); usage: thorough_all.sh [seed] [workers]
 cd "$(dirname "$0")/.."
 ./setup.sh >/dev/null
+if [ -n "$VP_RUN_REPO" ]; then export VERIF_REPO="$VP_RUN_REPO"; fi
 seed=${1:-1}; workers=${2:-16}
 for p in C02 C03 C04 C05 C06 C08 C11 C15 C16 C18 C19 C20; do
   echo "=== $p thorough seed=$seed"
